@@ -133,7 +133,7 @@ func (t *Timer) Stop() bool {
 func AfterFunc(d time.Duration, f func()) *Timer {
 	tm := &Timer{}
 	spawn(fmt.Sprintf("timer(%s)", d), false, func() {
-		simple("timer.fire", func() bool { return true })
+		simple("timer.fire", func() bool { return !tm.stopped })
 		EvWrite(&tm.o, "timer.fire", 0)
 		if tm.stopped {
 			return
